@@ -553,7 +553,13 @@ func buildSetEvents(id string, task *Task, updates map[string]string, agentID st
 		claimValue = cv
 		if !isEpic(task) {
 			if claimValue == "" {
-				// Clear claim
+				// Clear claim. Without an accompanying state change the task keeps its
+				// state, so that state must be one that may be unclaimed.
+				if _, hasState := remainingUpdates["state"]; !hasState {
+					if err := validateClaimInvariant(task.State, ""); err != nil {
+						return nil, nil, err
+					}
+				}
 				event, err := newEvent("unclaim", now, UnclaimEvent{
 					ID: id,
 					TS: formatTime(now),
@@ -615,6 +621,9 @@ func buildSetEvents(id string, task *Task, updates map[string]string, agentID st
 
 	// If claim was set to a non-empty value and state wasn't explicitly set, default to doing
 	if claimWasSet && claimValue != "" && !stateWasSet {
+		if err := validateTransition(task.State, stateDoing); err != nil {
+			return nil, nil, err
+		}
 		event, err := newEvent("state", now, StateEvent{
 			ID:       id,
 			NewState: stateDoing,
